@@ -287,7 +287,7 @@ def execute_refusal(case, out):
     void = int(target) in hdl._tx_map and hdl._tx_map[int(target)] in hdl._tx_pend_start
     if void:
         out.label('refusal-names-unstarted-transfer')
-    world.peer_send(r.encode({'t': 'XFER_REFUSE', 'reason': 2, 'id': int(target)}))
+    world.peer_send(r.encode({'t': 'XFER_REFUSE', 'reason': int(case.get('reason', 2)), 'id': int(target)}))
     peer_reads()
     # the peer now acknowledges every segment (of the refused transfer only if ack_after)
     acked = 0
@@ -311,6 +311,8 @@ def execute_refusal(case, out):
         peer_reads()
         if not sent_any and acked == len([m for m in wire() if m['t'] == 'XFER_SEGMENT']):
             break
+    # (C04 runs the same scenario and judges the octets the endpoint wrote)
+    out.refusal_trace = dict(real=world.real_wire(), peer=bytes(world.peer_sock.tx.log), target=int(target), void=void, situation=situation)
     for esc in world.escapes():
         out.fail('escape:%s@%s' % (esc.exc_type, esc.frame), 'exception escaped an event-loop callback: %s: %s' % (esc.exc_type, esc.exc_msg[:120]))
     for ev in dbus.RECORDER.events:
